@@ -358,8 +358,12 @@ impl EigenTrustEngine {
         }
 
         // Apply time decay
-        let last_update = self.last_update.read().await;
-        let elapsed = last_update.elapsed().as_secs() as f64 / 3600.0; // hours
+        // The read guard must be released before the timestamp is written below:
+        // holding it across `last_update.write().await` blocks this function on itself.
+        let elapsed = {
+            let last_update = self.last_update.read().await;
+            last_update.elapsed().as_secs() as f64 / 3600.0 // hours
+        };
 
         for (_, trust) in trust_vector.iter_mut() {
             *trust *= self.decay_rate.powf(elapsed);
